@@ -141,7 +141,7 @@ fn gen_property(src: &mut Src) -> LefProperty {
     LefProperty { name: gen_name(src), value }
 }
 fn gen_symmetry(src: &mut Src) -> Vec<LefSymmetry> {
-    let n = src.usize_in(1, 3);
+    let n = src.usize_in(0, 3); // `SYMMETRY ;` (no values) is distinct from no statement
     (0..n).map(|_| *src.pick(&[LefSymmetry::X, LefSymmetry::Y, LefSymmetry::R90])).collect()
 }
 pub fn gen_pin(src: &mut Src, o: &LefGenOpts) -> LefPin {
@@ -208,7 +208,7 @@ pub fn gen_macro(src: &mut Src, o: &LefGenOpts, version_le_5p4: bool) -> LefMacr
         fixed_mask: src.prob(1, 5),
         properties: if o.properties { (0..src.weighted(&[4, 2, 1, 1])).map(|_| gen_property(src)).collect() } else { vec![] },
         density: opt(src, 1, 5, |s| {
-            let nl = s.usize_in(1, 2);
+            let nl = s.usize_in(0, 2); // an empty `DENSITY END` block is legal and distinct from no block
             (0..nl)
                 .map(|_| {
                     let nr = s.usize_in(0, 2);
